@@ -2,7 +2,8 @@
     Statements only; every proof is [exact <lemma>]. *)
 From RN Require Import Base.Res Codec.Varint Codec.BufReader
   RaftLog.LogFile RaftLog.Spec RaftLog.Layout RaftLog.RecordProofs RaftLog.StripProofs
-  RaftLog.Refine RaftLog.Corollaries RaftLog.ManagerProofs.
+  RaftLog.Refine RaftLog.Corollaries RaftLog.ManagerProofs
+  RaftLog.LogManager RaftLog.ManagerInv RaftLog.ManagerSpec RaftLog.ManagerRefine.
 Local Open Scope N_scope.
 
 (** delete-from k keeps exactly the entries below k, for every log and every k >= first index
@@ -59,3 +60,45 @@ Proof. exact truncate_then_reopen. Qed.
 Theorem C03_manager_truncate_partial : forall m k,
   mgr_wf m -> mgr_first m <= k -> mgr_truncate_spec m k.
 Proof. exact mgr_truncate_refines. Qed.
+
+(** * the manager layer (several files, pointer files, split-off positions) *)
+
+(** delete-from k (k at or above the first entry and above the newest snapshot pointer) leaves
+    exactly the abstract prefix below k - whichever files it touches, drops or reopens - and the
+    catalogue invariant holds again *)
+Theorem C03_truncate_exact_multi_file : forall m st k,
+  MRep m st -> mop_ok st (OTruncate k) ->
+  let '(m', out) := mstep m (OTruncate k) in
+  out = MAck true /\
+  MRep m' (mkMst (match ms_log st with Some a => Some (a_truncate a k) | None => None end)
+                 (ms_floor st) (ms_pend st)).
+Proof. exact truncate_exact_multi_file. Qed.
+
+Theorem C03_manager_truncate : forall m st k,
+  MRep m st -> mop_ok st (OTruncate k) ->
+  let '(m', out) := mstep m (OTruncate k) in
+  out = MAck true /\
+  MRep m' (mkMst (match ms_log st with Some a => Some (a_truncate a k) | None => None end)
+                 (ms_floor st) (ms_pend st)).
+Proof. exact truncate_exact_multi_file. Qed.
+
+(** the next append at k is acknowledged (a full file rolls over to a new one) *)
+Theorem C03_append_after_truncate_accepted_multi_file : forall m st a k x,
+  MRep m st -> ms_log st = Some a -> mop_ok st (OTruncate k) -> k < a_end a ->
+  rec_in x -> r_index x = k ->
+  let '(m1, _) := mstep m (OTruncate k) in
+  let '(m2, o2) := mstep m1 (OAppend x) in
+  o2 = MAck true.
+Proof. exact append_after_truncate_accepted_multi_file. Qed.
+
+(** truncate, then any further history, restart, query: the abstract log (corollary of the simulation) *)
+Theorem C03_truncate_then_history_then_reopen_multi_file : forall ops m st lo hi,
+  MRep m st -> lo < U64MAX ->
+  let '(m1, outs) := mrun m ops in
+  mops_ok st ops outs ->
+  exists st1, mspecs st ops outs st1 /\
+    let '(m2, o2) := mstep m1 OReopen in
+    let '(m3, o3) := mstep m2 (OQuery lo hi) in
+    o2 = MDone /\ exists l, o3 = MRecs l /\
+      map to_ent l = match ms_log st1 with Some a => a_get a lo hi | None => [] end.
+Proof. exact reopen_returns_exactly_acked_multi_file. Qed.
